@@ -433,6 +433,74 @@ pub fn run_miri(prop: &str, ctx: &Ctx, from: u64, to: u64, shards: u64, merged: 
     }
 }
 
+/// The interpreter-sized workload of a check (the family sizes of the Miri flavour), run in this very build under
+/// valgrind memcheck, in `shards` parallel processes: out-of-bounds and uninitialised accesses and releases through
+/// the wrong layout in native code, about 25 times slower than native — cheap enough for the quick tier, where
+/// Miri and the AddressSanitizer build are not.
+pub fn run_valgrind_inproc(prop: &str, ctx: &Ctx, total: u64, shards: u64, merged: &mut Stats) {
+    let bin = Flavour::Rel.binary();
+    let shards = shards.max(1).min(total.max(1));
+    let mut children = vec![];
+    for s in 0..shards {
+        let child = Command::new("timeout")
+            .args(["900", "valgrind", "-q", "--error-exitcode=99", "--leak-check=no", bin.as_str()])
+            .args(["inproc", prop, ctx.tier.name(), &ctx.seed.to_string(), "0", &total.to_string(), &shards.to_string(), &s.to_string()])
+            .env("NLV_FLAVOUR", "miri")
+            .stdin(Stdio::null())
+            .stdout(Stdio::piped())
+            .stderr(Stdio::piped())
+            .spawn();
+        match child {
+            Ok(c) => children.push((s, c)),
+            Err(e) => {
+                merged.inconclusive(format!("valgrind could not be started: {}", e));
+                return;
+            }
+        }
+    }
+    for (s, c) in children {
+        let o = match c.wait_with_output() {
+            Ok(o) => o,
+            Err(e) => {
+                merged.inconclusive(format!("valgrind shard failed to run: {}", e));
+                continue;
+            }
+        };
+        let out = String::from_utf8_lossy(&o.stdout).to_string();
+        let err = String::from_utf8_lossy(&o.stderr).to_string();
+        let what = format!("cases {} + k * {} of {} (interpreter-sized workload) under valgrind memcheck", s, shards, prop);
+        if let Some(l) = out.lines().find(|l| l.starts_with("inproc ")) {
+            merged.count("valgrind-inproc:shards-completed");
+            let ev: u64 = l.split("evaluations=").nth(1).and_then(|x| x.split_whitespace().next()).and_then(|x| x.parse().ok()).unwrap_or(0);
+            merged.add("valgrind-inproc:evaluations", ev);
+            merged.evaluations += ev;
+        }
+        for l in out.lines().filter(|l| l.starts_with("INPROC-VIOLATION ")) {
+            merged.violation(&format!("valgrind-inproc:{}", l.split(" :: ").next().unwrap_or("").trim_start_matches("INPROC-VIOLATION ")), l.to_string(), &what);
+        }
+        match o.status.code() {
+            Some(0) => {}
+            Some(99) => {
+                let class = if err.contains("Invalid read") {
+                    "invalid-read"
+                } else if err.contains("Invalid write") {
+                    "invalid-write"
+                } else if err.contains("Invalid free") || err.contains("Mismatched free") {
+                    "invalid-free"
+                } else if err.contains("uninitialised") {
+                    "uninitialised"
+                } else {
+                    "error"
+                };
+                let k = err.find("==").unwrap_or(0);
+                merged.violation(&format!("valgrind-inproc:{}", class), crate::obs::clip(&err[k..], 2500), &what);
+            }
+            Some(124) => merged.count("case-inconclusive:valgrind-inproc-timeout"),
+            other => merged.inconclusive(format!("valgrind run of {} ended with {:?}: {}", prop, other, crate::obs::clip(&err, 400))),
+        }
+    }
+}
+
 /// The in-process thread context of a check under ThreadSanitizer (binary built by ./check with -Zbuild-std)
 pub fn run_tsan(prop: &str, ctx: &Ctx, merged: &mut Stats) {
     let bin_s = format!("{}/harness/target-tsan/x86_64-unknown-linux-gnu/release/nlv", root());
